@@ -104,11 +104,14 @@ type c17Hist struct {
 	gone     map[string]map[simRouteKey]c17Gone  // per neighbour: key was expected earlier in this session, not any more since event
 	tagKey   map[uint32]c17PathKey               // which route a version tag belonged to
 	tagDied  map[uint32]int                      // event at which that version was replaced / withdrawn / lost
+	bestTags []map[uint32]bool                   // per event: the versions gobgp ranked first at quiescence after it
+	apiRel   map[string]map[string]bool          // AddPath NLRI text of API routes originated in a VRF -> VRFs that used it
 }
 
 type c17Since struct {
-	ev  int
-	sig string
+	ev    int
+	sig   string
+	fresh bool // not expected at all right before .ev (as opposed to: expected, the version changed at .ev)
 }
 
 type c17Gone struct {
@@ -468,6 +471,12 @@ func (h *c17Hist) rememberRTs(fam bgp.Family, key string, rts []c17RT) {
 // putRoute records an announcement in the model and classifies it for violation keys.
 func (h *c17Hist) putRoute(rt *c17Route) string {
 	h.tagKey[rt.tag] = rt.c17PathKey
+	if rt.rel != "" {
+		if h.apiRel[rt.rel] == nil {
+			h.apiRel[rt.rel] = map[string]bool{}
+		}
+		h.apiRel[rt.rel][rt.vrf] = true
+	}
 	kind := "route-announce"
 	if old, ok := h.m.routes[rt.c17PathKey]; ok {
 		h.tagDied[old.tag] = h.seq
@@ -1074,4 +1083,3 @@ func (h *c17Hist) step() bool {
 	}
 	return true
 }
-
